@@ -233,7 +233,7 @@ def mk_tokens(reach):
     from vf import pysym
 
     def solve(reach):
-        src = open("/repo/aiocoap/tokenmanager.py").read()
+        src = __import__("vf.api", fromlist=["x"]).repo_source("aiocoap/tokenmanager.py")
         I = pysym.Interp(src, "TokenManager", width=80)
         a = z3.BitVec("a", 80)
         I.pre = z3.And(a >= 0, z3.ULT(a, I.bv(2 ** 64)))
